@@ -47,7 +47,8 @@ type T struct {
 	Kept       int    `json:"kept"`
 	Total      int    `json:"total"`
 	Discovered bool   `json:"discovered"`
-	Healthy    bool   `json:"healthy"` // the explorer probed it successfully
+	Healthy    bool   `json:"healthy"`        // the explorer probed it successfully
+	Down       bool   `json:"down,omitempty"` // the target answers 500 from now on (still discovered)
 	est        *target.ScrapeStatus
 }
 
@@ -62,6 +63,11 @@ type Config struct {
 	Shards  []Seed `json:"shards"`
 	BudgetW int    `json:"workload_budget"`
 	BudgetF int    `json:"fault_budget"`
+	BudgetD int    `json:"down_budget"`
+	// DownAsFault: "a target goes down for good" is one of the faults (consumes the fault budget)
+	DownAsFault bool `json:"down_as_fault,omitempty"`
+	// Inflight enables the event "a coordination cycle runs while shard i's Prometheus is in the middle of a scrape"
+	Inflight bool `json:"inflight,omitempty"`
 	// Later: targets that a workload event may add (discovered=false initially in Targets)
 }
 
@@ -76,7 +82,7 @@ func (e Event) String() string {
 	switch e.Kind {
 	case "cycle", "expire", "shrink":
 		return e.Kind
-	case "grow", "add", "remove":
+	case "grow", "add", "remove", "down":
 		return fmt.Sprintf("%s(%d)", e.Kind, e.H)
 	}
 	return fmt.Sprintf("%s(%d)", e.Kind, e.I)
@@ -134,9 +140,16 @@ type World struct {
 	cfgInfo *prom.ConfigInfo
 	BudgetW int
 	BudgetF int
-	Last    *CycleObs
-	cyc     *CycleObs
-	Cycles  int
+	BudgetD int
+	// ghost bookkeeping of the harness, independent of the sidecars' own counters: completed scrapes of
+	// target h by shard i since it was assigned there / since its move began, and "a move began here"
+	since    []map[uint64]int
+	moving   []map[uint64]bool
+	Ghost    []string // findings of the ghost oracle in the last cycle
+	inflight func()
+	Last     *CycleObs
+	cyc      *CycleObs
+	Cycles   int
 }
 
 var start = time.Unix(1700000000, 0).UTC()
@@ -158,7 +171,7 @@ func cfgInfo() *prom.ConfigInfo {
 func New(cfg *Config, base string) *World {
 	os.RemoveAll(base)
 	os.MkdirAll(base, 0o755)
-	w := &World{Cfg: cfg, base: base, now: start, T: map[uint64]*T{}, BudgetW: cfg.BudgetW, BudgetF: cfg.BudgetF}
+	w := &World{Cfg: cfg, base: base, now: start, T: map[uint64]*T{}, BudgetW: cfg.BudgetW, BudgetF: cfg.BudgetF, BudgetD: cfg.BudgetD}
 	vrt.SetClock(w.now)
 	sidecar.VerifSetTimeNow(func() time.Time { return w.now })
 	for i := range cfg.Targets {
@@ -172,8 +185,15 @@ func New(cfg *Config, base string) *World {
 		var h uint64
 		fmt.Sscanf(req.URL.Hostname(), "t%d", &h)
 		t := w.T[h]
+		if f := w.inflight; f != nil {
+			w.inflight = nil
+			f()
+		}
 		if t == nil {
 			return rig.Answer{Status: 404}
+		}
+		if t.Down {
+			return rig.Answer{Status: 500}
 		}
 		var sb strings.Builder
 		for i := 0; i < t.Kept; i++ {
@@ -266,6 +286,13 @@ func (w *World) addShard(seed Seed, ordinal int) {
 		panic(fmt.Sprintf("sidecar start: %v", err))
 	}
 	w.shards = append(w.shards, &sc{s: s, dir: dir, ordinal: ordinal})
+	g, mv := map[uint64]int{}, map[uint64]bool{}
+	for h, st := range seed {
+		g[h] = 0
+		mv[h] = st == "in_transfer"
+	}
+	w.since = append(w.since, g)
+	w.moving = append(w.moving, mv)
 }
 
 // ---- shard.Manager -----------------------------------------------------------------------------
@@ -345,6 +372,8 @@ func (w *World) applyScale(n int) {
 		last := w.shards[len(w.shards)-1]
 		os.RemoveAll(last.dir) // the volume is deleted with the shard
 		w.shards = w.shards[:len(w.shards)-1]
+		w.since = w.since[:len(w.shards)]
+		w.moving = w.moving[:len(w.shards)]
 	}
 	for len(w.shards) < n {
 		w.addShard(nil, len(w.shards))
